@@ -34,6 +34,7 @@ func (C04) Info() core.Info {
 
 func (C04) Gen(r *simrt.RNG, tier string) core.Case {
 	cfg := world.SwarmCfg(r)
+	world.Deepen(&cfg, r, tier)
 	cfg.MaxConvs = 2 + r.Intn(5)
 	cfg.Gens = false
 	w := world.GenPlanned(r, cfg)
